@@ -31,6 +31,14 @@ def esl_exp_pdf (x mu lambda : α) : α :=
   else
     (lambda * (Num.exp ((-lambda) * (x - mu))))
 
+/-- which `return` of `esl_exp_pdf` is reached (branch monitor; numbered in the order of the translated tree) -/
+def esl_exp_pdf_leaf (x mu lambda : α) : Nat :=
+  if (x < mu) then
+    0
+  else
+    1
+
+
 /-- `esl_exp_logpdf` (esl_exponential.c:68) -/
 def esl_exp_logpdf (x mu lambda : α) : α :=
   if (x < mu) then
@@ -44,6 +52,20 @@ def esl_exp_logpdf (x mu lambda : α) : α :=
     else
       ((Num.log lambda) - (lambda * (x - mu)))
 
+/-- which `return` of `esl_exp_logpdf` is reached (branch monitor; numbered in the order of the translated tree) -/
+def esl_exp_logpdf_leaf (x mu lambda : α) : Nat :=
+  if (x < mu) then
+    0
+  else
+    if (Num.eqb lambda (Num.inf) = true) then
+      if (Num.eqb x mu = true) then
+        1
+      else
+        2
+    else
+      3
+
+
 /-- `esl_exp_cdf` (esl_exponential.c:87) -/
 def esl_exp_cdf (x mu lambda : α) : α :=
   let y := (lambda * (x - mu))
@@ -54,6 +76,18 @@ def esl_exp_cdf (x mu lambda : α) : α :=
       y
     else
       (1.0 - (Num.exp (-y)))
+
+/-- which `return` of `esl_exp_cdf` is reached (branch monitor; numbered in the order of the translated tree) -/
+def esl_exp_cdf_leaf (x mu lambda : α) : Nat :=
+  let y := (lambda * (x - mu))
+  if (x < mu) then
+    0
+  else
+    if (y < 5.0e-9) then
+      1
+    else
+      2
+
 
 /-- `esl_exp_logcdf` (esl_exponential.c:105) -/
 def esl_exp_logcdf (x mu lambda : α) : α :=
@@ -73,12 +107,39 @@ def esl_exp_logcdf (x mu lambda : α) : α :=
         else
           (Num.log (1.0 - ey))
 
+/-- which `return` of `esl_exp_logcdf` is reached (branch monitor; numbered in the order of the translated tree) -/
+def esl_exp_logcdf_leaf (x mu lambda : α) : Nat :=
+  let y := (lambda * (x - mu))
+  let ey := (Num.exp (-y))
+  if (x < mu) then
+    0
+  else
+    if (Num.eqb y (0.0) = true) then
+      1
+    else
+      if (y < 5.0e-9) then
+        2
+      else
+        if (ey < 5.0e-9) then
+          3
+        else
+          4
+
+
 /-- `esl_exp_surv` (esl_exponential.c:128) -/
 def esl_exp_surv (x mu lambda : α) : α :=
   if (x < mu) then
     1.0
   else
     (Num.exp ((-lambda) * (x - mu)))
+
+/-- which `return` of `esl_exp_surv` is reached (branch monitor; numbered in the order of the translated tree) -/
+def esl_exp_surv_leaf (x mu lambda : α) : Nat :=
+  if (x < mu) then
+    0
+  else
+    1
+
 
 /-- `esl_exp_logsurv` (esl_exponential.c:142) -/
 def esl_exp_logsurv (x mu lambda : α) : α :=
@@ -87,19 +148,44 @@ def esl_exp_logsurv (x mu lambda : α) : α :=
   else
     ((-lambda) * (x - mu))
 
+/-- which `return` of `esl_exp_logsurv` is reached (branch monitor; numbered in the order of the translated tree) -/
+def esl_exp_logsurv_leaf (x mu lambda : α) : Nat :=
+  if (x < mu) then
+    0
+  else
+    1
+
+
 /-- `esl_exp_invcdf` (esl_exponential.c:156) -/
 def esl_exp_invcdf (p mu lambda : α) : α :=
   (mu - ((1.0 / lambda) * (Num.log (1.0 - p))))
 
+/-- which `return` of `esl_exp_invcdf` is reached (branch monitor; numbered in the order of the translated tree) -/
+def esl_exp_invcdf_leaf (p mu lambda : α) : Nat :=
+  0
+
+
 /-- `esl_exp_invsurv` (esl_exponential.c:170) -/
 def esl_exp_invsurv (p mu lambda : α) : α :=
   (mu - ((1.0 / lambda) * (Num.log p)))
+
+/-- which `return` of `esl_exp_invsurv` is reached (branch monitor; numbered in the order of the translated tree) -/
+def esl_exp_invsurv_leaf (p mu lambda : α) : Nat :=
+  0
+
 
 /-- `esl_exp_Sample` (esl_exponential.c:275) -/
 def esl_exp_Sample (u mu lambda : α) : α :=
   let p := u
   let x := (mu - ((1.0 / lambda) * (Num.log p)))
   x
+
+/-- which `return` of `esl_exp_Sample` is reached (branch monitor; numbered in the order of the translated tree) -/
+def esl_exp_Sample_leaf (u mu lambda : α) : Nat :=
+  let p := u
+  let x := (mu - ((1.0 / lambda) * (Num.log p)))
+  0
+
 
 /-- `esl_exp_generic_pdf` (esl_exponential.c:192) -/
 def esl_exp_generic_pdf (x : α) (params : List α) : α :=
@@ -126,20 +212,44 @@ def esl_gumbel_pdf (x mu lambda : α) : α :=
   let y := (lambda * (x - mu))
   (lambda * (Num.exp ((-y) - (Num.exp (-y)))))
 
+/-- which `return` of `esl_gumbel_pdf` is reached (branch monitor; numbered in the order of the translated tree) -/
+def esl_gumbel_pdf_leaf (x mu lambda : α) : Nat :=
+  let y := (lambda * (x - mu))
+  0
+
+
 /-- `esl_gumbel_logpdf` (esl_gumbel.c:73) -/
 def esl_gumbel_logpdf (x mu lambda : α) : α :=
   let y := (lambda * (x - mu))
   (((Num.log lambda) - y) - (Num.exp (-y)))
+
+/-- which `return` of `esl_gumbel_logpdf` is reached (branch monitor; numbered in the order of the translated tree) -/
+def esl_gumbel_logpdf_leaf (x mu lambda : α) : Nat :=
+  let y := (lambda * (x - mu))
+  0
+
 
 /-- `esl_gumbel_cdf` (esl_gumbel.c:92) -/
 def esl_gumbel_cdf (x mu lambda : α) : α :=
   let y := (lambda * (x - mu))
   (Num.exp (-(Num.exp (-y))))
 
+/-- which `return` of `esl_gumbel_cdf` is reached (branch monitor; numbered in the order of the translated tree) -/
+def esl_gumbel_cdf_leaf (x mu lambda : α) : Nat :=
+  let y := (lambda * (x - mu))
+  0
+
+
 /-- `esl_gumbel_logcdf` (esl_gumbel.c:110) -/
 def esl_gumbel_logcdf (x mu lambda : α) : α :=
   let y := (lambda * (x - mu))
   (-(Num.exp (-y)))
+
+/-- which `return` of `esl_gumbel_logcdf` is reached (branch monitor; numbered in the order of the translated tree) -/
+def esl_gumbel_logcdf_leaf (x mu lambda : α) : Nat :=
+  let y := (lambda * (x - mu))
+  0
+
 
 /-- `esl_gumbel_surv` (esl_gumbel.c:129) -/
 def esl_gumbel_surv (x mu lambda : α) : α :=
@@ -149,6 +259,16 @@ def esl_gumbel_surv (x mu lambda : α) : α :=
     (-ey)
   else
     (1.0 - (Num.exp ey))
+
+/-- which `return` of `esl_gumbel_surv` is reached (branch monitor; numbered in the order of the translated tree) -/
+def esl_gumbel_surv_leaf (x mu lambda : α) : Nat :=
+  let y := (lambda * (x - mu))
+  let ey := (-(Num.exp (-y)))
+  if ((Num.fabs ey) < 5.0e-9) then
+    0
+  else
+    1
+
 
 /-- `esl_gumbel_logsurv` (esl_gumbel.c:150) -/
 def esl_gumbel_logsurv (x mu lambda : α) : α :=
@@ -162,9 +282,27 @@ def esl_gumbel_logsurv (x mu lambda : α) : α :=
     else
       (Num.log (1.0 - (Num.exp ey)))
 
+/-- which `return` of `esl_gumbel_logsurv` is reached (branch monitor; numbered in the order of the translated tree) -/
+def esl_gumbel_logsurv_leaf (x mu lambda : α) : Nat :=
+  let y := (lambda * (x - mu))
+  let ey := (-(Num.exp (-y)))
+  if ((Num.fabs ey) < 5.0e-9) then
+    0
+  else
+    if ((Num.fabs (Num.exp ey)) < 5.0e-9) then
+      1
+    else
+      2
+
+
 /-- `esl_gumbel_invcdf` (esl_gumbel.c:172) -/
 def esl_gumbel_invcdf (p mu lambda : α) : α :=
   (mu - ((Num.log ((-1.0) * (Num.log p))) / lambda))
+
+/-- which `return` of `esl_gumbel_invcdf` is reached (branch monitor; numbered in the order of the translated tree) -/
+def esl_gumbel_invcdf_leaf (p mu lambda : α) : Nat :=
+  0
+
 
 /-- `esl_gumbel_invsurv` (esl_gumbel.c:185) -/
 def esl_gumbel_invsurv (p mu lambda : α) : α :=
@@ -175,10 +313,26 @@ def esl_gumbel_invsurv (p mu lambda : α) : α :=
     let log_part := (Num.log ((-1.0) * (Num.log (1.0 - p))))
     (mu - (log_part / lambda))
 
+/-- which `return` of `esl_gumbel_invsurv` is reached (branch monitor; numbered in the order of the translated tree) -/
+def esl_gumbel_invsurv_leaf (p mu lambda : α) : Nat :=
+  if (p < 5.0e-9) then
+    let log_part := (Num.log p)
+    0
+  else
+    let log_part := (Num.log ((-1.0) * (Num.log (1.0 - p))))
+    1
+
+
 /-- `esl_gumbel_Sample` (esl_gumbel.c:306) -/
 def esl_gumbel_Sample (u mu lambda : α) : α :=
   let p := u
   (esl_gumbel_invcdf p mu lambda)
+
+/-- which `return` of `esl_gumbel_Sample` is reached (branch monitor; numbered in the order of the translated tree) -/
+def esl_gumbel_Sample_leaf (u mu lambda : α) : Nat :=
+  let p := u
+  0
+
 
 /-- `esl_gumbel_generic_pdf` (esl_gumbel.c:220) -/
 def esl_gumbel_generic_pdf (p : α) (params : List α) : α :=
@@ -213,6 +367,20 @@ def esl_gev_pdf (x mu lambda alpha : α) : α :=
       let lya1 := (Num.log1p (alpha * y))
       (lambda * (Num.exp (((-(1.0 + (1.0 / alpha))) * lya1) - (Num.exp ((-lya1) / alpha)))))
 
+/-- which `return` of `esl_gev_pdf` is reached (branch monitor; numbered in the order of the translated tree) -/
+def esl_gev_pdf_leaf (x mu lambda alpha : α) : Nat :=
+  let y := (lambda * (x - mu))
+  let ya1 := (1.0 + (alpha * y))
+  if ((Num.fabs (y * alpha)) < 1.0e-12) then
+    0
+  else
+    if (ya1 ≤ 0.0) then
+      1
+    else
+      let lya1 := (Num.log1p (alpha * y))
+      2
+
+
 /-- `esl_gev_logpdf` (esl_gev.c:89) -/
 def esl_gev_logpdf (x mu lambda alpha : α) : α :=
   let y := (lambda * (x - mu))
@@ -225,6 +393,20 @@ def esl_gev_logpdf (x mu lambda alpha : α) : α :=
     else
       let lya1 := (Num.log1p (alpha * y))
       (((Num.log lambda) - ((1.0 + (1.0 / alpha)) * lya1)) - (Num.exp ((-lya1) / alpha)))
+
+/-- which `return` of `esl_gev_logpdf` is reached (branch monitor; numbered in the order of the translated tree) -/
+def esl_gev_logpdf_leaf (x mu lambda alpha : α) : Nat :=
+  let y := (lambda * (x - mu))
+  let ya1 := (1.0 + (alpha * y))
+  if ((Num.fabs (y * alpha)) < 1.0e-12) then
+    0
+  else
+    if (ya1 ≤ 0.0) then
+      1
+    else
+      let lya1 := (Num.log1p (alpha * y))
+      2
+
 
 /-- `esl_gev_cdf` (esl_gev.c:117) -/
 def esl_gev_cdf (x mu lambda alpha : α) : α :=
@@ -242,6 +424,23 @@ def esl_gev_cdf (x mu lambda alpha : α) : α :=
       let lya1 := (Num.log1p (alpha * y))
       (Num.exp (-(Num.exp ((-lya1) / alpha))))
 
+/-- which `return` of `esl_gev_cdf` is reached (branch monitor; numbered in the order of the translated tree) -/
+def esl_gev_cdf_leaf (x mu lambda alpha : α) : Nat :=
+  let y := (lambda * (x - mu))
+  let ya1 := (1.0 + (alpha * y))
+  if ((Num.fabs (y * alpha)) < 1.0e-12) then
+    0
+  else
+    if (ya1 ≤ 0.0) then
+      if (x < mu) then
+        1
+      else
+        2
+    else
+      let lya1 := (Num.log1p (alpha * y))
+      3
+
+
 /-- `esl_gev_logcdf` (esl_gev.c:144) -/
 def esl_gev_logcdf (x mu lambda alpha : α) : α :=
   let y := (lambda * (x - mu))
@@ -258,6 +457,23 @@ def esl_gev_logcdf (x mu lambda alpha : α) : α :=
       let lya1 := (Num.log1p (alpha * y))
       (-(Num.exp ((-lya1) / alpha)))
 
+/-- which `return` of `esl_gev_logcdf` is reached (branch monitor; numbered in the order of the translated tree) -/
+def esl_gev_logcdf_leaf (x mu lambda alpha : α) : Nat :=
+  let y := (lambda * (x - mu))
+  let ya1 := (1.0 + (alpha * y))
+  if ((Num.fabs (y * alpha)) < 1.0e-12) then
+    0
+  else
+    if (ya1 ≤ 0.0) then
+      if (x < mu) then
+        1
+      else
+        2
+    else
+      let lya1 := (Num.log1p (alpha * y))
+      3
+
+
 /-- `esl_gev_surv` (esl_gev.c:170) -/
 def esl_gev_surv (x mu lambda alpha : α) : α :=
   let y := (lambda * (x - mu))
@@ -273,6 +489,23 @@ def esl_gev_surv (x mu lambda alpha : α) : α :=
     else
       let lya1 := ((Num.log1p (alpha * y)) / alpha)
       (if (((-0.5) * (Num.log (2.2204460492503131e-16))) < lya1) then (Num.exp (-lya1)) else (1.0 - (Num.exp (-(Num.exp (-lya1))))))
+
+/-- which `return` of `esl_gev_surv` is reached (branch monitor; numbered in the order of the translated tree) -/
+def esl_gev_surv_leaf (x mu lambda alpha : α) : Nat :=
+  let y := (lambda * (x - mu))
+  let ya1 := (1.0 + (alpha * y))
+  if ((Num.fabs (y * alpha)) < 1.0e-12) then
+    0
+  else
+    if (ya1 ≤ 0.0) then
+      if (x < mu) then
+        1
+      else
+        2
+    else
+      let lya1 := ((Num.log1p (alpha * y)) / alpha)
+      3
+
 
 /-- `esl_gev_logsurv` (esl_gev.c:198) -/
 def esl_gev_logsurv (x mu lambda alpha : α) : α :=
@@ -302,6 +535,35 @@ def esl_gev_logsurv (x mu lambda alpha : α) : α :=
         else
           (Num.log (1.0 - (Num.exp (-(Num.exp (-lya1))))))
 
+/-- which `return` of `esl_gev_logsurv` is reached (branch monitor; numbered in the order of the translated tree) -/
+def esl_gev_logsurv_leaf (x mu lambda alpha : α) : Nat :=
+  let y := (lambda * (x - mu))
+  let ya1 := (1.0 + (alpha * y))
+  if ((Num.fabs (y * alpha)) < 1.0e-12) then
+    if (((-0.5) * (Num.log (2.2204460492503131e-16))) < y) then
+      0
+    else
+      if (y < (-2.9)) then
+        1
+      else
+        2
+  else
+    if (ya1 ≤ 0.0) then
+      if (x < mu) then
+        3
+      else
+        4
+    else
+      let lya1 := ((Num.log1p (alpha * y)) / alpha)
+      if (((-0.5) * (Num.log (2.2204460492503131e-16))) < lya1) then
+        5
+      else
+        if (lya1 < (-2.9)) then
+          6
+        else
+          7
+
+
 /-- `esl_gev_invcdf` (esl_gev.c:234) -/
 def esl_gev_invcdf (p mu lambda alpha : α) : α :=
   if ((Num.fabs alpha) < 1.0e-12) then
@@ -309,10 +571,24 @@ def esl_gev_invcdf (p mu lambda alpha : α) : α :=
   else
     (mu + ((Num.expm1 ((-alpha) * (Num.log (-(Num.log p))))) / (alpha * lambda)))
 
+/-- which `return` of `esl_gev_invcdf` is reached (branch monitor; numbered in the order of the translated tree) -/
+def esl_gev_invcdf_leaf (p mu lambda alpha : α) : Nat :=
+  if ((Num.fabs alpha) < 1.0e-12) then
+    0
+  else
+    1
+
+
 /-- `esl_gev_Sample` (esl_gev.c:336) -/
 def esl_gev_Sample (u mu lambda alpha : α) : α :=
   let p := u
   (esl_gev_invcdf p mu lambda alpha)
+
+/-- which `return` of `esl_gev_Sample` is reached (branch monitor; numbered in the order of the translated tree) -/
+def esl_gev_Sample_leaf (u mu lambda alpha : α) : Nat :=
+  let p := u
+  0
+
 
 /-- `esl_gev_generic_pdf` (esl_gev.c:254) -/
 def esl_gev_generic_pdf (x : α) (params : List α) : α :=
@@ -356,6 +632,29 @@ def esl_wei_pdf (x mu lambda tau : α) : α :=
       let val := (((lambda * tau) * (Num.exp ((tau - 1.0) * (Num.log y)))) * (Num.exp (-(Num.exp (tau * (Num.log y))))))
       val
 
+/-- which `return` of `esl_wei_pdf` is reached (branch monitor; numbered in the order of the translated tree) -/
+def esl_wei_pdf_leaf (x mu lambda tau : α) : Nat :=
+  let y := (lambda * (x - mu))
+  if (x < mu) then
+    0
+  else
+    if (Num.eqb x mu = true) then
+      if (tau < 1.0) then
+        1
+      else
+        if (1.0 < tau) then
+          2
+        else
+          if (Num.eqb tau (1.0) = true) then
+            3
+          else
+            let val := (((lambda * tau) * (Num.exp ((tau - 1.0) * (Num.log y)))) * (Num.exp (-(Num.exp (tau * (Num.log y))))))
+            4
+    else
+      let val := (((lambda * tau) * (Num.exp ((tau - 1.0) * (Num.log y)))) * (Num.exp (-(Num.exp (tau * (Num.log y))))))
+      5
+
+
 /-- `esl_wei_logpdf` (esl_weibull.c:77) -/
 def esl_wei_logpdf (x mu lambda tau : α) : α :=
   let y := (lambda * (x - mu))
@@ -378,6 +677,29 @@ def esl_wei_logpdf (x mu lambda tau : α) : α :=
       let val := ((((Num.log tau) + (tau * (Num.log lambda))) + ((tau - 1.0) * (Num.log (x - mu)))) - (Num.exp (tau * (Num.log y))))
       val
 
+/-- which `return` of `esl_wei_logpdf` is reached (branch monitor; numbered in the order of the translated tree) -/
+def esl_wei_logpdf_leaf (x mu lambda tau : α) : Nat :=
+  let y := (lambda * (x - mu))
+  if (x < mu) then
+    0
+  else
+    if (Num.eqb x mu = true) then
+      if (tau < 1.0) then
+        1
+      else
+        if (1.0 < tau) then
+          2
+        else
+          if (Num.eqb tau (1.0) = true) then
+            3
+          else
+            let val := ((((Num.log tau) + (tau * (Num.log lambda))) + ((tau - 1.0) * (Num.log (x - mu)))) - (Num.exp (tau * (Num.log y))))
+            4
+    else
+      let val := ((((Num.log tau) + (tau * (Num.log lambda))) + ((tau - 1.0) * (Num.log (x - mu)))) - (Num.exp (tau * (Num.log y))))
+      5
+
+
 /-- `esl_wei_cdf` (esl_weibull.c:100) -/
 def esl_wei_cdf (x mu lambda tau : α) : α :=
   let y := (lambda * (x - mu))
@@ -389,6 +711,19 @@ def esl_wei_cdf (x mu lambda tau : α) : α :=
       (Num.exp tly)
     else
       (1.0 - (Num.exp (-(Num.exp tly))))
+
+/-- which `return` of `esl_wei_cdf` is reached (branch monitor; numbered in the order of the translated tree) -/
+def esl_wei_cdf_leaf (x mu lambda tau : α) : Nat :=
+  let y := (lambda * (x - mu))
+  let tly := (tau * (Num.log y))
+  if (x ≤ mu) then
+    0
+  else
+    if ((Num.exp tly) < 5.0e-9) then
+      1
+    else
+      2
+
 
 /-- `esl_wei_logcdf` (esl_weibull.c:117) -/
 def esl_wei_logcdf (x mu lambda tau : α) : α :=
@@ -405,6 +740,22 @@ def esl_wei_logcdf (x mu lambda tau : α) : α :=
       else
         (Num.log (1.0 - (Num.exp (-(Num.exp tly)))))
 
+/-- which `return` of `esl_wei_logcdf` is reached (branch monitor; numbered in the order of the translated tree) -/
+def esl_wei_logcdf_leaf (x mu lambda tau : α) : Nat :=
+  let y := (lambda * (x - mu))
+  let tly := (tau * (Num.log y))
+  if (x ≤ mu) then
+    0
+  else
+    if ((Num.exp tly) < 5.0e-9) then
+      1
+    else
+      if ((Num.fabs (Num.exp (-(Num.exp tly)))) < 5.0e-9) then
+        2
+      else
+        3
+
+
 /-- `esl_wei_surv` (esl_weibull.c:138) -/
 def esl_wei_surv (x mu lambda tau : α) : α :=
   let y := (lambda * (x - mu))
@@ -413,6 +764,16 @@ def esl_wei_surv (x mu lambda tau : α) : α :=
     1.0
   else
     (Num.exp (-(Num.exp tly)))
+
+/-- which `return` of `esl_wei_surv` is reached (branch monitor; numbered in the order of the translated tree) -/
+def esl_wei_surv_leaf (x mu lambda tau : α) : Nat :=
+  let y := (lambda * (x - mu))
+  let tly := (tau * (Num.log y))
+  if (x ≤ mu) then
+    0
+  else
+    1
+
 
 /-- `esl_wei_logsurv` (esl_weibull.c:156) -/
 def esl_wei_logsurv (x mu lambda tau : α) : α :=
@@ -423,14 +784,35 @@ def esl_wei_logsurv (x mu lambda tau : α) : α :=
   else
     (-(Num.exp tly))
 
+/-- which `return` of `esl_wei_logsurv` is reached (branch monitor; numbered in the order of the translated tree) -/
+def esl_wei_logsurv_leaf (x mu lambda tau : α) : Nat :=
+  let y := (lambda * (x - mu))
+  let tly := (tau * (Num.log y))
+  if (x ≤ mu) then
+    0
+  else
+    1
+
+
 /-- `esl_wei_invcdf` (esl_weibull.c:173) -/
 def esl_wei_invcdf (p mu lambda tau : α) : α :=
   (mu + ((1.0 / lambda) * (Num.exp ((1.0 / tau) * (Num.log (-(Num.log (1.0 - p))))))))
+
+/-- which `return` of `esl_wei_invcdf` is reached (branch monitor; numbered in the order of the translated tree) -/
+def esl_wei_invcdf_leaf (p mu lambda tau : α) : Nat :=
+  0
+
 
 /-- `esl_wei_Sample` (esl_weibull.c:284) -/
 def esl_wei_Sample (u mu lambda tau : α) : α :=
   let p := u
   (esl_wei_invcdf p mu lambda tau)
+
+/-- which `return` of `esl_wei_Sample` is reached (branch monitor; numbered in the order of the translated tree) -/
+def esl_wei_Sample_leaf (u mu lambda tau : α) : Nat :=
+  let p := u
+  0
+
 
 /-- `esl_wei_generic_pdf` (esl_weibull.c:193) -/
 def esl_wei_generic_pdf (x : α) (params : List α) : α :=
@@ -466,6 +848,21 @@ def esl_sxp_pdf (x mu lambda tau : α) : α :=
       let val := (((lambda * tau) / (Num.exp gt)) * (Num.exp (-(Num.exp (tau * (Num.log y))))))
       val
 
+/-- which `return` of `esl_sxp_pdf` is reached (branch monitor; numbered in the order of the translated tree) -/
+def esl_sxp_pdf_leaf (x mu lambda tau : α) : Nat :=
+  let y := (lambda * (x - mu))
+  if (x < mu) then
+    0
+  else
+    let gt := Num.logGamma (1.0 / tau)
+    if (Num.eqb x mu = true) then
+      let val := ((lambda * tau) / (Num.exp gt))
+      1
+    else
+      let val := (((lambda * tau) / (Num.exp gt)) * (Num.exp (-(Num.exp (tau * (Num.log y))))))
+      2
+
+
 /-- `esl_sxp_logpdf` (esl_stretchexp.c:73) -/
 def esl_sxp_logpdf (x mu lambda tau : α) : α :=
   let y := (lambda * (x - mu))
@@ -480,6 +877,21 @@ def esl_sxp_logpdf (x mu lambda tau : α) : α :=
       let val := ((((Num.log lambda) + (Num.log tau)) - gt) - (Num.exp (tau * (Num.log y))))
       val
 
+/-- which `return` of `esl_sxp_logpdf` is reached (branch monitor; numbered in the order of the translated tree) -/
+def esl_sxp_logpdf_leaf (x mu lambda tau : α) : Nat :=
+  let y := (lambda * (x - mu))
+  if (x < mu) then
+    0
+  else
+    let gt := Num.logGamma (1.0 / tau)
+    if (Num.eqb x mu = true) then
+      let val := (((Num.log lambda) + (Num.log tau)) - gt)
+      1
+    else
+      let val := ((((Num.log lambda) + (Num.log tau)) - gt) - (Num.exp (tau * (Num.log y))))
+      2
+
+
 /-- `esl_sxp_cdf` (esl_stretchexp.c:94) -/
 def esl_sxp_cdf (x mu lambda tau : α) : α :=
   let y := (lambda * (x - mu))
@@ -488,6 +900,16 @@ def esl_sxp_cdf (x mu lambda tau : α) : α :=
   else
     let val := Num.incGammaP (1.0 / tau) (Num.exp (tau * (Num.log y)))
     val
+
+/-- which `return` of `esl_sxp_cdf` is reached (branch monitor; numbered in the order of the translated tree) -/
+def esl_sxp_cdf_leaf (x mu lambda tau : α) : Nat :=
+  let y := (lambda * (x - mu))
+  if (x ≤ mu) then
+    0
+  else
+    let val := Num.incGammaP (1.0 / tau) (Num.exp (tau * (Num.log y)))
+    1
+
 
 /-- `esl_sxp_logcdf` (esl_stretchexp.c:113) -/
 def esl_sxp_logcdf (x mu lambda tau : α) : α :=
@@ -498,6 +920,16 @@ def esl_sxp_logcdf (x mu lambda tau : α) : α :=
     let val := Num.incGammaP (1.0 / tau) (Num.exp (tau * (Num.log y)))
     (Num.log val)
 
+/-- which `return` of `esl_sxp_logcdf` is reached (branch monitor; numbered in the order of the translated tree) -/
+def esl_sxp_logcdf_leaf (x mu lambda tau : α) : Nat :=
+  let y := (lambda * (x - mu))
+  if (x ≤ mu) then
+    0
+  else
+    let val := Num.incGammaP (1.0 / tau) (Num.exp (tau * (Num.log y)))
+    1
+
+
 /-- `esl_sxp_surv` (esl_stretchexp.c:130) -/
 def esl_sxp_surv (x mu lambda tau : α) : α :=
   let y := (lambda * (x - mu))
@@ -507,6 +939,16 @@ def esl_sxp_surv (x mu lambda tau : α) : α :=
     let val := Num.incGammaQ (1.0 / tau) (Num.exp (tau * (Num.log y)))
     val
 
+/-- which `return` of `esl_sxp_surv` is reached (branch monitor; numbered in the order of the translated tree) -/
+def esl_sxp_surv_leaf (x mu lambda tau : α) : Nat :=
+  let y := (lambda * (x - mu))
+  if (x ≤ mu) then
+    0
+  else
+    let val := Num.incGammaQ (1.0 / tau) (Num.exp (tau * (Num.log y)))
+    1
+
+
 /-- `esl_sxp_logsurv` (esl_stretchexp.c:148) -/
 def esl_sxp_logsurv (x mu lambda tau : α) : α :=
   let y := (lambda * (x - mu))
@@ -515,6 +957,16 @@ def esl_sxp_logsurv (x mu lambda tau : α) : α :=
   else
     let val := Num.incGammaQ (1.0 / tau) (Num.exp (tau * (Num.log y)))
     (Num.log val)
+
+/-- which `return` of `esl_sxp_logsurv` is reached (branch monitor; numbered in the order of the translated tree) -/
+def esl_sxp_logsurv_leaf (x mu lambda tau : α) : Nat :=
+  let y := (lambda * (x - mu))
+  if (x ≤ mu) then
+    0
+  else
+    let val := Num.incGammaQ (1.0 / tau) (Num.exp (tau * (Num.log y)))
+    1
+
 
 /-- `esl_sxp_invcdf`: the code after loop 2 (line 186) -/
 def esl_sxp_invcdf_exit2 (fuel : Nat) (p mu lambda tau tol x1 x2 : α) : Option α :=
@@ -574,6 +1026,13 @@ def esl_sxp_Sample (u mu lambda tau : α) : α :=
   let x := (mu + ((1.0 / lambda) * (Num.exp ((1.0 / tau) * (Num.log t)))))
   x
 
+/-- which `return` of `esl_sxp_Sample` is reached (branch monitor; numbered in the order of the translated tree) -/
+def esl_sxp_Sample_leaf (u mu lambda tau : α) : Nat :=
+  let t := u
+  let x := (mu + ((1.0 / lambda) * (Num.exp ((1.0 / tau) * (Num.log t)))))
+  0
+
+
 /-- `esl_sxp_generic_pdf` (esl_stretchexp.c:215) -/
 def esl_sxp_generic_pdf (x : α) (params : List α) : α :=
   let p := params
@@ -618,6 +1077,31 @@ def esl_gam_pdf (x mu lambda tau : α) : α :=
       let val := ((((tau * (Num.log lambda)) + ((tau - 1.0) * (Num.log (x - mu)))) - gamtau) - y)
       (Num.exp val)
 
+/-- which `return` of `esl_gam_pdf` is reached (branch monitor; numbered in the order of the translated tree) -/
+def esl_gam_pdf_leaf (x mu lambda tau : α) : Nat :=
+  let y := (lambda * (x - mu))
+  if (y < 0.0) then
+    0
+  else
+    if (Num.eqb x mu = true) then
+      if (tau < 1.0) then
+        1
+      else
+        if (1.0 < tau) then
+          2
+        else
+          if (Num.eqb tau (1.0) = true) then
+            3
+          else
+            let gamtau := Num.logGamma tau
+            let val := ((((tau * (Num.log lambda)) + ((tau - 1.0) * (Num.log (x - mu)))) - gamtau) - y)
+            4
+    else
+      let gamtau := Num.logGamma tau
+      let val := ((((tau * (Num.log lambda)) + ((tau - 1.0) * (Num.log (x - mu)))) - gamtau) - y)
+      5
+
+
 /-- `esl_gam_logpdf` (esl_gamma.c:76) -/
 def esl_gam_logpdf (x mu lambda tau : α) : α :=
   let y := (lambda * (x - mu))
@@ -642,6 +1126,31 @@ def esl_gam_logpdf (x mu lambda tau : α) : α :=
       let val := ((((tau * (Num.log lambda)) + ((tau - 1.0) * (Num.log (x - mu)))) - gamtau) - y)
       val
 
+/-- which `return` of `esl_gam_logpdf` is reached (branch monitor; numbered in the order of the translated tree) -/
+def esl_gam_logpdf_leaf (x mu lambda tau : α) : Nat :=
+  let y := (lambda * (x - mu))
+  if (y < 0.0) then
+    0
+  else
+    if (Num.eqb x mu = true) then
+      if (tau < 1.0) then
+        1
+      else
+        if (1.0 < tau) then
+          2
+        else
+          if (Num.eqb tau (1.0) = true) then
+            3
+          else
+            let gamtau := Num.logGamma tau
+            let val := ((((tau * (Num.log lambda)) + ((tau - 1.0) * (Num.log (x - mu)))) - gamtau) - y)
+            4
+    else
+      let gamtau := Num.logGamma tau
+      let val := ((((tau * (Num.log lambda)) + ((tau - 1.0) * (Num.log (x - mu)))) - gamtau) - y)
+      5
+
+
 /-- `esl_gam_cdf` (esl_gamma.c:106) -/
 def esl_gam_cdf (x mu lambda tau : α) : α :=
   let y := (lambda * (x - mu))
@@ -650,6 +1159,16 @@ def esl_gam_cdf (x mu lambda tau : α) : α :=
   else
     let val := Num.incGammaP tau y
     val
+
+/-- which `return` of `esl_gam_cdf` is reached (branch monitor; numbered in the order of the translated tree) -/
+def esl_gam_cdf_leaf (x mu lambda tau : α) : Nat :=
+  let y := (lambda * (x - mu))
+  if (y ≤ 0.0) then
+    0
+  else
+    let val := Num.incGammaP tau y
+    1
+
 
 /-- `esl_gam_logcdf` (esl_gamma.c:125) -/
 def esl_gam_logcdf (x mu lambda tau : α) : α :=
@@ -660,6 +1179,16 @@ def esl_gam_logcdf (x mu lambda tau : α) : α :=
     let val := Num.incGammaP tau y
     (Num.log val)
 
+/-- which `return` of `esl_gam_logcdf` is reached (branch monitor; numbered in the order of the translated tree) -/
+def esl_gam_logcdf_leaf (x mu lambda tau : α) : Nat :=
+  let y := (lambda * (x - mu))
+  if (y ≤ 0.0) then
+    0
+  else
+    let val := Num.incGammaP tau y
+    1
+
+
 /-- `esl_gam_surv` (esl_gamma.c:143) -/
 def esl_gam_surv (x mu lambda tau : α) : α :=
   let y := (lambda * (x - mu))
@@ -669,6 +1198,16 @@ def esl_gam_surv (x mu lambda tau : α) : α :=
     let val := Num.incGammaQ tau y
     val
 
+/-- which `return` of `esl_gam_surv` is reached (branch monitor; numbered in the order of the translated tree) -/
+def esl_gam_surv_leaf (x mu lambda tau : α) : Nat :=
+  let y := (lambda * (x - mu))
+  if (y ≤ 0.0) then
+    0
+  else
+    let val := Num.incGammaQ tau y
+    1
+
+
 /-- `esl_gam_logsurv` (esl_gamma.c:166) -/
 def esl_gam_logsurv (x mu lambda tau : α) : α :=
   let y := (lambda * (x - mu))
@@ -677,6 +1216,16 @@ def esl_gam_logsurv (x mu lambda tau : α) : α :=
   else
     let val := Num.incGammaQ tau y
     (Num.log val)
+
+/-- which `return` of `esl_gam_logsurv` is reached (branch monitor; numbered in the order of the translated tree) -/
+def esl_gam_logsurv_leaf (x mu lambda tau : α) : Nat :=
+  let y := (lambda * (x - mu))
+  if (y ≤ 0.0) then
+    0
+  else
+    let val := Num.incGammaQ tau y
+    1
+
 
 /-- `esl_gam_invcdf`: the code after loop 2 (line 203) -/
 def esl_gam_invcdf_exit2 (fuel : Nat) (p mu lambda tau tol x1 x2 : α) : Option α :=
@@ -756,20 +1305,44 @@ def esl_normal_pdf (x mu sigma : α) : α :=
   let z := ((x - mu) / sigma)
   ((Num.exp (((-z) * z) * 0.5)) / (sigma * (Num.sqrt (2.0 * 3.14159265358979323846264338328))))
 
+/-- which `return` of `esl_normal_pdf` is reached (branch monitor; numbered in the order of the translated tree) -/
+def esl_normal_pdf_leaf (x mu sigma : α) : Nat :=
+  let z := ((x - mu) / sigma)
+  0
+
+
 /-- `esl_normal_logpdf` (esl_normal.c:71) -/
 def esl_normal_logpdf (x mu sigma : α) : α :=
   let z := ((x - mu) / sigma)
   (((((-z) * z) * 0.5) - (Num.log sigma)) - (Num.log (Num.sqrt (2.0 * 3.14159265358979323846264338328))))
+
+/-- which `return` of `esl_normal_logpdf` is reached (branch monitor; numbered in the order of the translated tree) -/
+def esl_normal_logpdf_leaf (x mu sigma : α) : Nat :=
+  let z := ((x - mu) / sigma)
+  0
+
 
 /-- `esl_normal_cdf` (esl_normal.c:89) -/
 def esl_normal_cdf (x mu sigma : α) : α :=
   let z := ((x - mu) / sigma)
   (0.5 * (Num.erfc (((-1.0) * z) / (Num.sqrt 2.0))))
 
+/-- which `return` of `esl_normal_cdf` is reached (branch monitor; numbered in the order of the translated tree) -/
+def esl_normal_cdf_leaf (x mu sigma : α) : Nat :=
+  let z := ((x - mu) / sigma)
+  0
+
+
 /-- `esl_normal_surv` (esl_normal.c:113) -/
 def esl_normal_surv (x mu sigma : α) : α :=
   let z := ((x - mu) / sigma)
   (0.5 * (Num.erfc (z / (Num.sqrt 2.0))))
+
+/-- which `return` of `esl_normal_surv` is reached (branch monitor; numbered in the order of the translated tree) -/
+def esl_normal_surv_leaf (x mu sigma : α) : Nat :=
+  let z := ((x - mu) / sigma)
+  0
+
 
 /-- `esl_normal_generic_pdf` (esl_normal.c:130) -/
 def esl_normal_generic_pdf (x : α) (params : List α) : α :=
@@ -794,6 +1367,15 @@ def esl_lognormal_pdf (x mu sigma : α) : α :=
     let z := (((Num.log x) - mu) / sigma)
     ((Num.exp (((-z) * z) * 0.5)) / ((x * sigma) * (Num.sqrt (2.0 * 3.14159265358979323846264338328))))
 
+/-- which `return` of `esl_lognormal_pdf` is reached (branch monitor; numbered in the order of the translated tree) -/
+def esl_lognormal_pdf_leaf (x mu sigma : α) : Nat :=
+  if (Num.eqb x (0.0) = true) then
+    0
+  else
+    let z := (((Num.log x) - mu) / sigma)
+    1
+
+
 /-- `esl_lognormal_logpdf` (esl_lognormal.c:32) -/
 def esl_lognormal_logpdf (x mu sigma : α) : α :=
   if (Num.eqb x (0.0) = true) then
@@ -802,10 +1384,25 @@ def esl_lognormal_logpdf (x mu sigma : α) : α :=
     let z := (((Num.log x) - mu) / sigma)
     (((-(Num.log (x * sigma))) - (0.5 * (Num.log (2.0 * 3.14159265358979323846264338328)))) - ((0.5 * z) * z))
 
+/-- which `return` of `esl_lognormal_logpdf` is reached (branch monitor; numbered in the order of the translated tree) -/
+def esl_lognormal_logpdf_leaf (x mu sigma : α) : Nat :=
+  if (Num.eqb x (0.0) = true) then
+    0
+  else
+    let z := (((Num.log x) - mu) / sigma)
+    1
+
+
 /-- `esl_lognormal_Sample` (esl_lognormal.c:55); `u` = the variate `esl_rnd_Gaussian(r, …)` yields -/
 def esl_lognormal_Sample (u mu sigma : α) : α :=
   let u_ := u
   (Num.exp (mu + (sigma * u_)))
+
+/-- which `return` of `esl_lognormal_Sample` is reached (branch monitor; numbered in the order of the translated tree) -/
+def esl_lognormal_Sample_leaf (u mu sigma : α) : Nat :=
+  let u_ := u
+  0
+
 
 /-- `esl_vec_DMax` (esl_vectorops.c:289) -/
 def esl_vec_DMax (vec : List α) (n : Nat) : α :=
@@ -1196,6 +1793,65 @@ def dispatch (name : String) (a : List α) : Option α :=
   | "esl_lognormal_pdf", [x0, x1, x2] => some (esl_lognormal_pdf x0 x1 x2)
   | "esl_lognormal_logpdf", [x0, x1, x2] => some (esl_lognormal_logpdf x0 x1 x2)
   | "esl_lognormal_Sample", [x0, x1, x2] => some (esl_lognormal_Sample x0 x1 x2)
+  | _, _ => none
+
+/-- name → number of the `return` reached (branch monitor) -/
+def dispatchLeaf (name : String) (a : List α) : Option Nat :=
+  match name, a with
+  | "esl_exp_pdf", [x0, x1, x2] => some (esl_exp_pdf_leaf x0 x1 x2)
+  | "esl_exp_logpdf", [x0, x1, x2] => some (esl_exp_logpdf_leaf x0 x1 x2)
+  | "esl_exp_cdf", [x0, x1, x2] => some (esl_exp_cdf_leaf x0 x1 x2)
+  | "esl_exp_logcdf", [x0, x1, x2] => some (esl_exp_logcdf_leaf x0 x1 x2)
+  | "esl_exp_surv", [x0, x1, x2] => some (esl_exp_surv_leaf x0 x1 x2)
+  | "esl_exp_logsurv", [x0, x1, x2] => some (esl_exp_logsurv_leaf x0 x1 x2)
+  | "esl_exp_invcdf", [x0, x1, x2] => some (esl_exp_invcdf_leaf x0 x1 x2)
+  | "esl_exp_invsurv", [x0, x1, x2] => some (esl_exp_invsurv_leaf x0 x1 x2)
+  | "esl_exp_Sample", [x0, x1, x2] => some (esl_exp_Sample_leaf x0 x1 x2)
+  | "esl_gumbel_pdf", [x0, x1, x2] => some (esl_gumbel_pdf_leaf x0 x1 x2)
+  | "esl_gumbel_logpdf", [x0, x1, x2] => some (esl_gumbel_logpdf_leaf x0 x1 x2)
+  | "esl_gumbel_cdf", [x0, x1, x2] => some (esl_gumbel_cdf_leaf x0 x1 x2)
+  | "esl_gumbel_logcdf", [x0, x1, x2] => some (esl_gumbel_logcdf_leaf x0 x1 x2)
+  | "esl_gumbel_surv", [x0, x1, x2] => some (esl_gumbel_surv_leaf x0 x1 x2)
+  | "esl_gumbel_logsurv", [x0, x1, x2] => some (esl_gumbel_logsurv_leaf x0 x1 x2)
+  | "esl_gumbel_invcdf", [x0, x1, x2] => some (esl_gumbel_invcdf_leaf x0 x1 x2)
+  | "esl_gumbel_invsurv", [x0, x1, x2] => some (esl_gumbel_invsurv_leaf x0 x1 x2)
+  | "esl_gumbel_Sample", [x0, x1, x2] => some (esl_gumbel_Sample_leaf x0 x1 x2)
+  | "esl_gev_pdf", [x0, x1, x2, x3] => some (esl_gev_pdf_leaf x0 x1 x2 x3)
+  | "esl_gev_logpdf", [x0, x1, x2, x3] => some (esl_gev_logpdf_leaf x0 x1 x2 x3)
+  | "esl_gev_cdf", [x0, x1, x2, x3] => some (esl_gev_cdf_leaf x0 x1 x2 x3)
+  | "esl_gev_logcdf", [x0, x1, x2, x3] => some (esl_gev_logcdf_leaf x0 x1 x2 x3)
+  | "esl_gev_surv", [x0, x1, x2, x3] => some (esl_gev_surv_leaf x0 x1 x2 x3)
+  | "esl_gev_logsurv", [x0, x1, x2, x3] => some (esl_gev_logsurv_leaf x0 x1 x2 x3)
+  | "esl_gev_invcdf", [x0, x1, x2, x3] => some (esl_gev_invcdf_leaf x0 x1 x2 x3)
+  | "esl_gev_Sample", [x0, x1, x2, x3] => some (esl_gev_Sample_leaf x0 x1 x2 x3)
+  | "esl_wei_pdf", [x0, x1, x2, x3] => some (esl_wei_pdf_leaf x0 x1 x2 x3)
+  | "esl_wei_logpdf", [x0, x1, x2, x3] => some (esl_wei_logpdf_leaf x0 x1 x2 x3)
+  | "esl_wei_cdf", [x0, x1, x2, x3] => some (esl_wei_cdf_leaf x0 x1 x2 x3)
+  | "esl_wei_logcdf", [x0, x1, x2, x3] => some (esl_wei_logcdf_leaf x0 x1 x2 x3)
+  | "esl_wei_surv", [x0, x1, x2, x3] => some (esl_wei_surv_leaf x0 x1 x2 x3)
+  | "esl_wei_logsurv", [x0, x1, x2, x3] => some (esl_wei_logsurv_leaf x0 x1 x2 x3)
+  | "esl_wei_invcdf", [x0, x1, x2, x3] => some (esl_wei_invcdf_leaf x0 x1 x2 x3)
+  | "esl_wei_Sample", [x0, x1, x2, x3] => some (esl_wei_Sample_leaf x0 x1 x2 x3)
+  | "esl_sxp_pdf", [x0, x1, x2, x3] => some (esl_sxp_pdf_leaf x0 x1 x2 x3)
+  | "esl_sxp_logpdf", [x0, x1, x2, x3] => some (esl_sxp_logpdf_leaf x0 x1 x2 x3)
+  | "esl_sxp_cdf", [x0, x1, x2, x3] => some (esl_sxp_cdf_leaf x0 x1 x2 x3)
+  | "esl_sxp_logcdf", [x0, x1, x2, x3] => some (esl_sxp_logcdf_leaf x0 x1 x2 x3)
+  | "esl_sxp_surv", [x0, x1, x2, x3] => some (esl_sxp_surv_leaf x0 x1 x2 x3)
+  | "esl_sxp_logsurv", [x0, x1, x2, x3] => some (esl_sxp_logsurv_leaf x0 x1 x2 x3)
+  | "esl_sxp_Sample", [x0, x1, x2, x3] => some (esl_sxp_Sample_leaf x0 x1 x2 x3)
+  | "esl_gam_pdf", [x0, x1, x2, x3] => some (esl_gam_pdf_leaf x0 x1 x2 x3)
+  | "esl_gam_logpdf", [x0, x1, x2, x3] => some (esl_gam_logpdf_leaf x0 x1 x2 x3)
+  | "esl_gam_cdf", [x0, x1, x2, x3] => some (esl_gam_cdf_leaf x0 x1 x2 x3)
+  | "esl_gam_logcdf", [x0, x1, x2, x3] => some (esl_gam_logcdf_leaf x0 x1 x2 x3)
+  | "esl_gam_surv", [x0, x1, x2, x3] => some (esl_gam_surv_leaf x0 x1 x2 x3)
+  | "esl_gam_logsurv", [x0, x1, x2, x3] => some (esl_gam_logsurv_leaf x0 x1 x2 x3)
+  | "esl_normal_pdf", [x0, x1, x2] => some (esl_normal_pdf_leaf x0 x1 x2)
+  | "esl_normal_logpdf", [x0, x1, x2] => some (esl_normal_logpdf_leaf x0 x1 x2)
+  | "esl_normal_cdf", [x0, x1, x2] => some (esl_normal_cdf_leaf x0 x1 x2)
+  | "esl_normal_surv", [x0, x1, x2] => some (esl_normal_surv_leaf x0 x1 x2)
+  | "esl_lognormal_pdf", [x0, x1, x2] => some (esl_lognormal_pdf_leaf x0 x1 x2)
+  | "esl_lognormal_logpdf", [x0, x1, x2] => some (esl_lognormal_logpdf_leaf x0 x1 x2)
+  | "esl_lognormal_Sample", [x0, x1, x2] => some (esl_lognormal_Sample_leaf x0 x1 x2)
   | _, _ => none
 
 /-- name → translated loop-containing function (`some none` = fuel exhausted) and the generic-API wrappers
